@@ -59,7 +59,7 @@ def prepare(rng, scratch, ntasks, kinds=None, want=None):
     return analyse_text(prog.text, scratch, prog.embed)
 
 
-def analyse_text(text, scratch, embed=None):
+def analyse_text(text, scratch, embed=None, plain_ok=True):
     path = write_jugfile(scratch, text)
     core.CURRENT_INPUT.clear()
     core.CURRENT_INPUT.update({'kind': 'jugfile', 'text': text, 'doing': 'cache-free sequential run of the generated jugfile with the real Task.run / value()'})
@@ -70,21 +70,30 @@ def analyse_text(text, scratch, embed=None):
     seq_calls = list(lib.CALLS)
     # plain twin
     del lib.CALLS[:]
-    ns = lib.plain_namespace()
-    exec(compile(text[len(genprog.HEADER):], '<plain twin>', 'exec'), ns)
-    plain = {k: ns[k] for k in top}
+    if plain_ok:
+        ns = lib.plain_namespace()
+        exec(compile(text[len(genprog.HEADER):], '<plain twin>', 'exec'), ns)
+        plain = {k: ns[k] for k in top}
+        plain_calls = list(lib.CALLS)
+    else:
+        # a program that goes on filling a container after handing it to a task has no plain twin (Python would call the function at once):
+        # the reference is the cache-free sequential run itself
+        plain = dict(top)
+        plain_calls = seq_calls
     del lib.CALLS[:]
-    # reference arguments per task key k (from the sequential run)
+    # reference arguments per task key k: what the function receives when the same text runs as plain Python (the tasklet operations
+    # applied to the values of the producers); the cache-free sequential jug run must hand over the same arguments
     ref_args = {}
     ks = {}
-    for c in seq_calls:
+    for c in plain_calls:
         if c[0] == 'B':
             ref_args[c[2]] = c[4]
+    seq_arg_diffs = [(c[1], c[2], c[4], ref_args[c[2]]) for c in seq_calls if c[0] == 'B' and c[2] in ref_args and c[4] != ref_args[c[2]]]
     # which model task is the function with key k ? (the task whose name matches and whose first argument is k)
     for i, t in enumerate(order):
         if t.name in ('jugverif.lib.' + n for n in lib.RAW) and t.args and isinstance(t.args[0], int) and not isinstance(t.args[0], bool):
             ks[i] = t.args[0]
-    return {'text': text, 'path': path, 'index': index, 'order': order, 'info': info, 'top': top, 'plain': plain, 'ref_args': ref_args, 'ks': ks,
+    return {'text': text, 'path': path, 'index': index, 'order': order, 'info': info, 'top': top, 'plain': plain, 'ref_args': ref_args, 'seq_arg_diffs': seq_arg_diffs, 'ks': ks,
             'embed': embed or {}, 'n': len(order)}
 
 
@@ -152,7 +161,7 @@ def run_case(P, scratch, backend_kind, nworkers, rng, flags=None, faults=None, k
     if pre_done:
         s0 = be.store()
         tasks, _ = sched.load_jugfile(P['path'], s0)
-        index, order = sched.index_tasks(tasks)
+        index, order = sched.index_tasks(tasks, P['index'])
         for t in tasks:
             t.store = s0
         for i, t in enumerate(order[:pre_done]):
